@@ -121,6 +121,7 @@ fn main() {
         "C15" => dispatch(&props::c15::C15, &mode, &opts),
         "C16" => dispatch(&props::c16::C16, &mode, &opts),
         "C17" => dispatch(&props::c17::C17, &mode, &opts),
+        "C19" => dispatch(&props::c19::C19, &mode, &opts),
         other => {
             eprintln!("unknown property {other}");
             2
